@@ -179,7 +179,7 @@ class Check(PropertyCheck):
         # a build / solve / drop loop (the way a benchmark study runs): same shape, same total processing time, every
         # instance garbage before the next one exists - each answer must be about the instance that was passed
         yield Scenario(["new", "cpnew", "mark cpsatrange 0"], {"families": "cpsatrange", "solves": 1})
-        for k in range(2 if tier == "quick" else 6):
+        for k in range(4 if tier == "quick" else 10):
             yield Scenario(["new", "cpnew", f"mark degenerate {rng.randint(0, 10**6)}"], {"families": "degenerate", "solves": 1})
         for k in range(3 if tier == "quick" else 20):
             yield Scenario(["new", "cpnew", f"mark resolve {rng.randint(0, 10**6)}"], {"families": "resolve", "solves": 3})
@@ -340,7 +340,17 @@ class Check(PropertyCheck):
             import jsl as _jsl
             from impl_ext import _ORToolsSolver, _NoSolution
             r = random.Random(int(line.split()[2]))
-            shape = r.choice([[], [[]], [[], []]])
+            shape = r.choice([[], [[]], [[], []], "mixed", "mixed", "mixed"])
+            if shape == "mixed":
+                # (empty jobs next to ordinary ones - the library's own RemoveMachines transformation produces such instances)
+                _, jobs_m = gen.gen_instance(r, r.choice(["classic", "irregular", "recirc"]), max_jobs=3, max_machines=3, max_ops=3, max_dur=6)
+                jobs_m.insert(r.randrange(len(jobs_m) + 1), [])
+                inst_m = build_instance(jobs_m)
+                try:
+                    sched_m = _ORToolsSolver().solve(inst_m)
+                except Exception as e:  # pylint: disable=broad-except
+                    return [("solve-raised", f"solve raised {e!r} for an instance with an empty job: {jobs_m}")]
+                return self.check_schedule(inst_m, jobs_m, sched_m)
             try:
                 inst = _jsl.JobShopInstance([list(j) for j in shape], name="degenerate")
             except Exception:  # pylint: disable=broad-except
